@@ -189,7 +189,7 @@ def work(item):
                 continue
             res['obligations'] += 1
             prob = float_replay(m, adv, item)
-            if kind == 'exc' and prob:
+            if prob:
                 res['violations'].append(('poloidal:exception', '%s: %s / %s' % (type(val).__name__, str(val)[:100], prob), dict(kind='poloidal', item=[str(x) for x in item[:10]])))
             else:
                 res['inconclusive'].append('poloidal: %s %r %r' % (kind, val, item[:10]))
